@@ -21,12 +21,51 @@ func init() {
 
 // views returns the two inputs as views of ONE backing array when alias is set
 // (alias = [lo1, hi1, lo2, hi2] into buf), else as independent copies.
+// A session is a history of several calls whose arguments live in the same two
+// backing arrays, rewritten in place between the calls (as a caller that reuses
+// its buffers does): a result that depends on the identity of an argument rather
+// than on its contents, or on what an earlier call left behind, shows up there.
+type sessArena struct{ a, b [320]int }
+
+var curSess *sessArena
+
 func views(buf, lhs, rhs, alias []int) ([]int, []int) {
 	if len(alias) == 4 {
 		b := slices.Clone(buf)
 		return b[alias[0]:alias[1]], b[alias[2]:alias[3]]
 	}
+	if curSess != nil && len(lhs) <= len(curSess.a) && len(rhs) <= len(curSess.b) {
+		copy(curSess.a[:], lhs)
+		copy(curSess.b[:], rhs)
+		return curSess.a[:len(lhs)], curSess.b[:len(rhs)]
+	}
 	return slices.Clone(lhs), slices.Clone(rhs)
+}
+
+func sessFlag() int {
+	if curSess != nil {
+		return 1
+	}
+	return 0
+}
+
+// scrambleEdit makes a few unrelated calls (scripts of 1, 2, 4 and 8 edits) while the
+// caller still holds an earlier result: that result must not be backed by reused storage.
+func scrambleEdit() {
+	for _, n := range []int{1, 2, 4, 8} {
+		var a, b []int
+		for i := 0; i < n; i++ {
+			if i%2 == 0 {
+				a = append(a, 500+i, 900+i)
+				b = append(b, 500+i, 700+i)
+			} else {
+				a = append(a, 500+i)
+				b = append(b, 500+i)
+			}
+		}
+		_ = slice.EditScript(a, b)
+		_ = slice.LCS(a, b)
+	}
 }
 
 func c11rec(lhs, rhs []int) Ev { return c11recA(nil, lhs, rhs, nil) }
@@ -36,10 +75,13 @@ func c11recA(buf, lhs, rhs, alias []int) Ev {
 		lhs, rhs = buf[alias[0]:alias[1]], buf[alias[2]:alias[3]]
 	}
 	ev := Ev{"op": "new", "lhs": ints(slices.Clone(lhs)), "rhs": ints(slices.Clone(rhs)), "script": []any{}, "lhs2": []int{}, "rhs2": []int{},
-		"buf": ints(buf), "alias": ints(alias), "z": 0}
+		"buf": ints(buf), "alias": ints(alias), "z": 0, "sess": sessFlag()}
 	guard(ev, func() {
 		l2, r2 := views(buf, lhs, rhs, alias)
 		es := slice.EditScript(l2, r2)
+		if curSess == nil {
+			scrambleEdit() // es is held across further calls (in a session the next call follows directly)
+		}
 		script := make([]any, 0, len(es))
 		for _, e := range es {
 			script = append(script, []any{string(rune(e.Op)), ints(e.X), ints(e.Y)})
@@ -94,6 +136,11 @@ func c11recZ(lhs, rhs []int) Ev {
 }
 
 func replayC11(c *Ctx, h *Hist, ops []Op) {
+	curSess = nil
+	if len(ops) > 0 && geti(ops[0], "sess") == 1 {
+		curSess = &sessArena{}
+		defer func() { curSess = nil }()
+	}
 	for _, op := range ops {
 		if geti(op, "z") == 1 {
 			h.Emit(c11recZ(getis(op, "lhs"), getis(op, "rhs")))
@@ -235,6 +282,41 @@ func runC11(c *Ctx) {
 		}
 		c.NewHist("signed-zero").Emit(c11recZ(a, b))
 	}
+	// sessions: arguments rewritten in place between calls, the same call repeated
+	for i := 0; i < c.Pick(400, 8000); i++ {
+		rng := c.Rng("c11-sess", i)
+		h := c.NewHist("session")
+		curSess = &sessArena{}
+		a, b := relatedPair(rng, 10, 3)
+		for step := 0; step < 5; step++ {
+			h.Emit(c11rec(a, b))
+			switch rng.Intn(4) {
+			case 0: // the same call again
+			case 1: // one element of lhs changes to a value that the new rhs contains
+				if len(a) > 0 {
+					v := 4 + rng.Intn(4)
+					a = slices.Clone(a)
+					a[rng.Intn(len(a))] = v
+					b = []int{v, 8 + rng.Intn(2)}
+				}
+			case 2: // a new rhs, lhs untouched
+				_, b = relatedPair(rng, 10, 3)
+			default: // both change, same lengths
+				a, b = slices.Clone(a), slices.Clone(b)
+				for j := range a {
+					if rng.Intn(3) == 0 {
+						a[j] = 1 + rng.Intn(4)
+					}
+				}
+				for j := range b {
+					if rng.Intn(3) == 0 {
+						b[j] = 1 + rng.Intn(4)
+					}
+				}
+			}
+		}
+		curSess = nil
+	}
 	n := c.Pick(3000, 120000)
 	for i := 0; i < n; i++ {
 		rng := c.Rng("c11", i)
@@ -270,8 +352,14 @@ func c12lcsA(buf, a, b, alias []int) Ev {
 		"vs": []int{}, "rev": false, "lis": []int{}, "lnds": []int{}, "lisf": []int{}, "lndsf": []int{}, "vs2": []int{}}
 	guard(ev, func() {
 		a2, b2 := views(buf, a, b, alias)
-		ev["out"] = ints(slices.Clone(slice.LCS(a2, b2)))
-		ev["outf"] = ints(slices.Clone(slice.LCSFunc(a2, b2, func(x, y int) bool { return x == y })))
+		o1 := slice.LCS(a2, b2)
+		o2 := slice.LCSFunc(a2, b2, func(x, y int) bool { return x == y })
+		if curSess == nil {
+			scrambleEdit() // both results are held across further calls
+		}
+		ev["out"] = ints(slices.Clone(o1))
+		ev["outf"] = ints(slices.Clone(o2))
+		ev["sess"] = sessFlag()
 		ev["a2"], ev["b2"] = ints(a2), ints(b2)
 	})
 	return ev
@@ -282,8 +370,13 @@ func c12lis(vs []int, rev bool) Ev { return c12lisM(vs, rev, 0) }
 func c12lisM(vs []int, rev bool, mag int) Ev {
 	ev := Ev{"op": "new", "kind": "lis", "buf": []int{}, "alias": []int{}, "mag": mag, "a": []int{}, "b": []int{}, "out": []int{}, "outf": []int{}, "a2": []int{}, "b2": []int{},
 		"vs": ints(vs), "rev": rev, "lis": []int{}, "lnds": []int{}, "lisf": []int{}, "lndsf": []int{}, "vs2": []int{}}
+	ev["sess"] = sessFlag()
 	guard(ev, func() {
 		v2 := slices.Clone(vs)
+		if curSess != nil && len(vs) <= len(curSess.a) {
+			copy(curSess.a[:], vs)
+			v2 = curSess.a[:len(vs)]
+		}
 		sign := 1
 		if rev {
 			sign = -1
@@ -321,6 +414,11 @@ func c12lisM(vs []int, rev bool, mag int) Ev {
 }
 
 func replayC12(c *Ctx, h *Hist, ops []Op) {
+	curSess = nil
+	if len(ops) > 0 && geti(ops[0], "sess") == 1 {
+		curSess = &sessArena{}
+		defer func() { curSess = nil }()
+	}
 	for _, op := range ops {
 		if gets(op, "kind") == "lcs" {
 			h.Emit(c12lcsA(getis(op, "buf"), getis(op, "a"), getis(op, "b"), getis(op, "alias")))
@@ -344,6 +442,59 @@ func runC12(c *Ctx) {
 		rng := c.Rng("c12-alias", i)
 		buf, alias := aliasCases(rng)
 		c.NewHist("aliased-lcs").Emit(c12lcsA(buf, nil, nil, alias))
+	}
+	// sessions (see c11): LCS with buffers rewritten in place; LIS/LNDS on inputs of more than
+	// 64 elements in turn: sorted, then unsorted with a late minimum, then the first again
+	for i := 0; i < c.Pick(200, 4000); i++ {
+		rng := c.Rng("c12-sess", i)
+		h := c.NewHist("session")
+		curSess = &sessArena{}
+		if i%2 == 0 {
+			a, b := relatedPair(rng, 10, 3)
+			for step := 0; step < 4; step++ {
+				h.Emit(c12lcs(a, b))
+				if rng.Intn(3) > 0 {
+					a, b = slices.Clone(a), slices.Clone(b)
+					for j := range a {
+						if rng.Intn(2) == 0 {
+							a[j] = 1 + rng.Intn(4)
+						}
+					}
+					for j := range b {
+						if rng.Intn(2) == 0 {
+							b[j] = 1 + rng.Intn(4)
+						}
+					}
+				}
+			}
+		} else {
+			n := 65 + rng.Intn(30)
+			sorted := make([]int, n)
+			for j := range sorted {
+				sorted[j] = 10 + j - j%3 // non-decreasing with plateaus
+			}
+			rev := rng.Intn(2) == 0
+			late := make([]int, n)
+			for j := range late {
+				late[j] = 50 + rng.Intn(40)
+			}
+			late[1+rng.Intn(n-1)] = 1 // a new minimum after index 0
+			neg := func(q []int) []int {
+				if !rev {
+					return q
+				}
+				out := make([]int, len(q))
+				for j, x := range q {
+					out[j] = -x
+				}
+				return out
+			}
+			h.Emit(c12lis(neg(sorted), rev))
+			h.Emit(c12lis(neg(late), rev))
+			h.Emit(c12lis(neg(sorted), rev))
+			h.Emit(c12lis(neg(late), rev))
+		}
+		curSess = nil
 	}
 	// "refine": a long increasing run, then an echo of a value a fixed distance
 	// before the end, then a run that refines the gap above it - every tail
